@@ -7,6 +7,7 @@ import HavocVerif.Driver.C07
 import HavocVerif.Driver.C08
 import HavocVerif.Driver.C09
 import HavocVerif.Driver.C10
+import HavocVerif.Driver.C12
 /-
   Line-protocol driver.  `driver <property> < ops.txt` prints one verdict per
   input line, prefixed with the 1-based line number.  A line `reset` starts a
@@ -32,6 +33,7 @@ def stepperFor (prop : String) : Option Stepper :=
   | "C08" => some ⟨DriverC08.St, {}, DriverC08.step⟩
   | "C09" => some ⟨Forest, {}, DriverC09.step⟩
   | "C10" => some ⟨DriverC10.St, {}, DriverC10.step⟩
+  | "C12" => some ⟨DriverC12.St, {}, DriverC12.step⟩
   | _ => none
 
 partial def loop (h : IO.FS.Stream) (out : IO.FS.Stream) (S : Stepper) (st : S.σ) (n : Nat) : IO Unit := do
